@@ -25,7 +25,7 @@
 #include "reader/reader_internal.h"
 #include <errno.h>
 
-#define MAXCOLS 64
+#define MAXCOLS 1100
 #define MAXKEPT 256
 
 typedef struct { char name[256]; int type, rep, tlen; } coldef_t;
@@ -247,6 +247,39 @@ static void cmd_meta(void) {
     }
 }
 
+/* H: dump a schema through the public accessors only (reader's schema, or the builder's if no reader):
+ *   H=<num_elements>:<num_columns>:<e0>:<e1>...;  e = namehex,is_leaf,type,rep,tlen,node_def,node_rep
+ *   then ";" and for every leaf column index i: find_column(name of leaf i) */
+static void cmd_schema_dump(void) {
+    const carquet_schema_t* s = g_reader ? carquet_reader_schema(g_reader) : g_schema;
+    if (!s && g_ncols > 0 && !g_reader) { if (make_schema() == 0) s = g_schema; }
+    if (!s) { fputs(" H=noschema", stdout); return; }
+    int32_t ne = carquet_schema_num_elements(s), nc = carquet_schema_num_columns(s);
+    printf(" H=%d:%d", ne, nc);
+    for (int32_t i = 0; i < ne; i++) {
+        const carquet_schema_node_t* nd = carquet_schema_get_element(s, i);
+        fputc(':', stdout);
+        if (!nd) { fputs("null", stdout); continue; }
+        const char* nm = carquet_schema_node_name(nd);
+        if (nm) vh_puthex(nm, strlen(nm)); else fputc('?', stdout);
+        printf(",%d,%d,%d,%d,%d,%d", (int)carquet_schema_node_is_leaf(nd), (int)carquet_schema_node_physical_type(nd),
+               (int)carquet_schema_node_repetition(nd), (int)carquet_schema_node_type_length(nd),
+               (int)carquet_schema_node_max_def_level(nd), (int)carquet_schema_node_max_rep_level(nd));
+    }
+    fputc(';', stdout);
+    /* column lookup by name: for each element that is a leaf, in order */
+    int first = 1;
+    for (int32_t i = 0; i < ne; i++) {
+        const carquet_schema_node_t* nd = carquet_schema_get_element(s, i);
+        if (!nd || !carquet_schema_node_is_leaf(nd)) continue;
+        const char* nm = carquet_schema_node_name(nd);
+        printf("%s%d", first ? "" : ",", nm ? carquet_schema_find_column(s, nm) : -2);
+        first = 0;
+    }
+    if (first) fputc('-', stdout);
+    printf(";%d;%d", (int)(carquet_schema_get_element(s, ne) == NULL), (int)(carquet_schema_get_element(s, -1) == NULL));
+}
+
 static void cmd_get_column(char* t) {
     if (!g_reader) { fputs(" K=noreader", stdout); return; }
     recheck_last();
@@ -301,7 +334,7 @@ static void cmd_drain(char* t) {
     if (k < 1) k = 1;
     size_t vs = value_size(g_col_type, g_col_tlen);
     int64_t delivered = 0; int err = 0, calls = 0;
-    size_t dcap = 256, dlen = 0; char* defs = (char*)malloc(dcap);
+    size_t dcap = 256, dlen = 0; char* defs = (char*)malloc(dcap); char* repsb = (char*)malloc(dcap);
     printf(" D=");
     /* values are printed call by call (dense per call) after the header fields, so buffer them */
     size_t ocap = 1 << 12, olen = 0; char* out = (char*)malloc(ocap);
@@ -316,7 +349,8 @@ static void cmd_drain(char* t) {
         if (n == 0) { free(vals); free(dl); free(rl); break; }
         int64_t nn = 0;
         for (int64_t i = 0; i < n; i++) {
-            if (dlen + 2 > dcap) { dcap *= 2; defs = (char*)realloc(defs, dcap); }
+            if (dlen + 2 > dcap) { dcap *= 2; defs = (char*)realloc(defs, dcap); repsb = (char*)realloc(repsb, dcap); }
+            repsb[dlen] = (char)('0' + (rl[i] & 15));
             defs[dlen++] = (char)('0' + (dl[i] & 15));
             if (dl[i] == g_col_maxdef) nn++;
         }
@@ -332,10 +366,10 @@ static void cmd_drain(char* t) {
         free(vals); free(dl); free(rl);
         if (carquet_column_remaining(g_col) <= 0) break;
     }
-    defs[dlen] = 0; out[olen] = 0;
-    printf("%lld:%d:%s:%s:%d:%lld", (long long)delivered, err, dlen ? defs : "-", olen ? out : "-", calls,
-           (long long)carquet_column_remaining(g_col));
-    free(defs); free(out);
+    defs[dlen] = 0; repsb[dlen] = 0; out[olen] = 0;
+    printf("%lld:%d:%s:%s:%d:%lld:%s", (long long)delivered, err, dlen ? defs : "-", olen ? out : "-", calls,
+           (long long)carquet_column_remaining(g_col), dlen ? repsb : "-");
+    free(defs); free(repsb); free(out);
 }
 
 /* J:<dst>:<src>:<pos>:<xormaskhex>  copy src to dst with bytes XORed from pos */
@@ -500,6 +534,7 @@ int main(void) {
                 case 'O': cmd_open(t); break;
                 case 'M': cmd_meta(); break;
                 case 'K': cmd_get_column(t); break;
+                case 'H': cmd_schema_dump(); break;
                 case 'R': cmd_read(t); break;
                 case 'P': cmd_skip(t); break;
                 case 'D': cmd_drain(t); break;
